@@ -121,6 +121,16 @@ class Opaque:
         return "<opaque %s>" % self.why
 
 
+class ArrayV:
+    """a definitely-not-None array argument supplied by the caller"""
+
+    def __init__(self, name):
+        self.name = name
+
+    def __repr__(self):
+        return "<array %s>" % self.name
+
+
 M_ = Lin(1, 0, 0)
 N_ = Lin(0, 1, 0)
 
@@ -208,6 +218,12 @@ class Interp:
             op = node.ops[0]
             if isinstance(a, Opaque) or isinstance(b, Opaque):
                 return Opaque("compare")
+            if isinstance(a, ArrayV) or isinstance(b, ArrayV):
+                if isinstance(op, ast.Is):
+                    return a is b
+                if isinstance(op, ast.IsNot):
+                    return a is not b
+                return Opaque("compare with an array")
             if isinstance(op, ast.Eq):
                 return a == b
             if isinstance(op, ast.NotEq):
@@ -495,6 +511,107 @@ def parity_where(node, xname):
     return a, b
 
 
+ALLOC_CALLS = {"np.array", "np.copy", "np.multiply", "np.zeros", "np.ones", "np.sum",
+               "np.einsum", "np.tensordot", "np.arange", "np.identity", "np.prod",
+               "np.where", "np.divide", "np.linalg.inv", "np.linspace", "np.sqrt",
+               "eval_chebyt", "eval_chebyu", "list", "tuple", "float", "int"}
+VIEW_CALLS = {"np.asarray", "np.asanyarray", "np.ascontiguousarray", "np.reshape",
+              "np.expand_dims", "np.squeeze", "np.transpose", "np.moveaxis"}
+
+
+def fresh_expr(node, known):
+    """Does evaluating `node` (numpy semantics) always allocate a new array?  `known`
+    maps local names to the freshness of the array they are bound to.  Attributes of
+    self and arguments are never fresh.  Fail closed on anything unknown."""
+    if isinstance(node, (ast.BinOp, ast.UnaryOp)):
+        return True                      # ndarray arithmetic returns a new array
+    if isinstance(node, ast.Name):
+        return bool(known.get(node.id, False))
+    if isinstance(node, (ast.Attribute, ast.Subscript)):
+        return False
+    if isinstance(node, ast.Call):
+        fn = ast.unparse(node.func)
+        if fn in ALLOC_CALLS:
+            return not any(k.arg == "out" for k in node.keywords)
+        if isinstance(node.func, ast.Attribute) and node.func.attr in ("copy",):
+            return True
+        if fn in VIEW_CALLS:
+            return fresh_expr(node.args[0], known) if node.args else False
+        if isinstance(node.func, ast.Attribute) and node.func.attr in (
+                "reshape", "view", "ravel", "squeeze", "transpose"):
+            return fresh_expr(node.func.value, known)
+        raise TranslateError("integrate: cannot tell whether %s allocates" % fn)
+    raise TranslateError("integrate: cannot tell whether %s allocates" %
+                         ast.unparse(node)[:60])
+
+
+def alias_scan(ms):
+    """Every in-place update (`x op= ...`, `x[i] op= ...`) in every method of the class must
+    act on an array allocated inside the method.  Flow-sensitive may-alias pass: a name is
+    fresh only if it is fresh on every path.  Returns the offending updates."""
+    bad = []
+
+    def fresh_or_false(node, known):
+        if isinstance(node, ast.Constant):
+            return True
+        if isinstance(node, (ast.List, ast.Tuple, ast.ListComp, ast.Dict, ast.JoinedStr,
+                             ast.Compare, ast.BoolOp)):
+            return True
+        if isinstance(node, ast.IfExp):
+            return fresh_or_false(node.body, known) and fresh_or_false(node.orelse, known)
+        try:
+            return fresh_expr(node, known)
+        except TranslateError:
+            return False
+
+    def join(a, b):
+        return {k: a.get(k, False) and b.get(k, False) for k in set(a) | set(b)}
+
+    def walk(stmts, known, mname):
+        for st in stmts:
+            if isinstance(st, ast.Assign):
+                v = fresh_or_false(st.value, known)
+                for t in st.targets:
+                    if isinstance(t, ast.Name):
+                        known[t.id] = v
+                    elif isinstance(t, ast.Tuple):
+                        for e in t.elts:
+                            if isinstance(e, ast.Name):
+                                known[e.id] = all(
+                                    fresh_or_false(x, known) for x in st.value.elts) \
+                                    if isinstance(st.value, ast.Tuple) else False
+            elif isinstance(st, ast.AnnAssign):
+                if isinstance(st.target, ast.Name) and st.value is not None:
+                    known[st.target.id] = fresh_or_false(st.value, known)
+            elif isinstance(st, ast.AugAssign):
+                t = st.target
+                while isinstance(t, ast.Subscript):
+                    t = t.value
+                if isinstance(t, ast.Name):
+                    if not known.get(t.id, False):
+                        bad.append((mname, st.lineno, ast.unparse(st)[:60]))
+                else:
+                    bad.append((mname, st.lineno, ast.unparse(st)[:60]))
+            elif isinstance(st, ast.If):
+                known.update(join(walk(st.body, dict(known), mname),
+                                  walk(st.orelse, dict(known), mname)))
+            elif isinstance(st, (ast.For, ast.While)):
+                if isinstance(st, ast.For):
+                    for e in ast.walk(st.target):
+                        if isinstance(e, ast.Name):
+                            known[e.id] = True      # loop counters / indices
+                k1 = walk(st.body, dict(known), mname)
+                k2 = walk(st.body, join(known, k1), mname)
+                known.update(join(known, join(k1, k2)))
+            elif isinstance(st, (ast.With, ast.Try)):
+                walk(st.body, known, mname)
+        return known
+
+    for name, fn in ms.items():
+        walk(fn.body, {}, name)
+    return sorted(set(bad))
+
+
 def leaf_coq(v):
     return {0: "o0 O", 1: "o1 O", "x": "x"}[v]
 
@@ -729,6 +846,50 @@ def generate(src):
         thalf[(d, ep)] = "[%s]" % "; ".join("(%d)%%Z" % h for h in halves)
     match2("gen_int_div", "(d : dir) (ep : bool) (M N : nat) : nat", tdiv)
     match2("gen_int_halved", "(d : dir) (ep : bool) : list Z", thalf)
+
+    # ---- integrate: is the array that is multiplied IN PLACE a fresh one? --------------
+    # (no weight given / weight=None / an explicit weight array)
+    fn = ms["integrate"]
+    argn = [a.arg for a in fn.args.args]
+    if "weight" not in argn:
+        raise TranslateError("integrate: no `weight` parameter")
+    k = argn.index("weight") - (len(argn) - len(fn.args.defaults))
+    if k < 0 or not isinstance(fn.args.defaults[k], ast.Constant):
+        raise TranslateError("integrate: `weight` has no constant default")
+    scen = (("WDefault", fn.args.defaults[k].value), ("WNone", None),
+            ("WArray", ArrayV("weight")))
+    fresh = {}
+    for nm, wv in scen:
+        env = base_env()
+        env.update({"self.rank": 1, "self.basis": ("Cardinal",), "self.direction": ("z",),
+                    "self.endpoints": (False,), "axis": (0,), "weight": wv})
+        it = Interp(env, watch=("integrand",))
+        it.run_method(ms["integrate"])
+        evs = [e for e in it.events if e[1] == "integrand" and e[0] in ("init", "aug")]
+        if not any(e[0] == "aug" for e in evs):
+            raise TranslateError("integrate: no in-place update of the integrand")
+        state = None        # freshness of the array currently bound to `integrand`
+        for e in evs:
+            if e[0] == "init":
+                state = fresh_expr(e[2], {"integrand": state})
+            else:
+                if state is None:
+                    raise TranslateError("integrate: integrand updated before assignment")
+                break
+        fresh[nm] = state
+    w("(* integrate: the array updated in place is freshly allocated (not an alias of")
+    w("   self.coefficients / of the caller's array) *)")
+    w("Inductive wkind := WDefault | WNone | WArray.")
+    w("Definition gen_int_fresh (w : wkind) : bool :=")
+    w("  match w with %s end." % " | ".join(
+        "%s => %s" % (nm, "true" if fresh[nm] else "false") for nm, _ in scen))
+    facts["integrate_fresh"] = fresh
+    unsafe = alias_scan(ms)
+    w("(* in-place updates, in any method, of an array that may be the operand's own")
+    w("   coefficients, an argument, or an attribute: %s *)" % (
+        "; ".join("%s line %d: %s" % u for u in unsafe).replace("*)", "* )") or "none"))
+    w("Definition gen_inplace_on_operand : nat := %d." % len(unsafe))
+    facts["inplace_on_operand"] = [list(u) for u in unsafe]
 
     # ---- chebyshev: what is subtracted ---------------------------------------------------------
     subs = {}
